@@ -8,17 +8,20 @@ TRACE = (MODULE, "C19_trace.cfg")
 REG = dict(category="model_checking",
     text="BpppNorm.tla is an executable TLA+ definition of the Bulletproofs++ weighted norm argument on real secp256k1 values: commitment v*G + <n,G_vec> + <l,H_vec> with the "
     "mu-weighted norm, the Fiat-Shamir transcript computed from the tag string, the two-points-in-65-bytes and generator-list codecs, the verifier as the one-shot final equation "
-    "(cross-checked at design level against the paper's round-by-round reduction, and 'every honest proof verifies / every listed alteration is rejected' as TLC invariants) and the "
+    "(cross-checked at design level against the paper's round-by-round reduction; 'every honest proof verifies' and 'every listed alteration is rejected' are TLC invariants) and the "
     "prover rounds (so proof bytes are predicted byte for byte). TLC generates records for (|n|,|l|) in {1,2,4,8}^2 (all 49 pairs up to 64x64 in the thorough tier): all-zero, boundary "
-    "and infinity-producing vectors, rho in {random,1,2,n-1,0}, all 1032 single-bit flips of a proof, sign bytes > 3, infinity with sign bit, scalars >= n and n+N re-encodings, "
-    "trailing/truncated bytes, non-power-of-two sizes, generator-count mismatch, every verifier scratch size from 0 past the need, prover with NULL and useless scratch, transcript "
-    "prefixes across SHA block boundaries; generator-list encodings of length 33k, 33k+-1 with malformed points and live-heap-object accounting around the parser (LeakSanitizer check "
-    "in the asan build). All records are replayed on the real (static) functions; implementation traces from a seeded driver are decided by TLC.",
-    note="Trusted: TLC, BigInteger/MessageDigest overrides, the harness interpreter, the malloc-counting wrapper / LeakSanitizer. Generator points are inputs of this property "
-    "(measured from the implementation; their derivation is not re-derived here): decided for them are determinism, prefix consistency, canonical encoding and exact round-trip. "
-    "Soundness of the argument (no accepting proof without a witness) is not decided -- only that verification equals the specified equation on the generated and recorded inputs. "
-    "The small test groups are not used: the module's generator derivation does not function there.",
-    technique="TLA+ spec executed by TLC; spec-generated records replayed into the C functions; implementation traces validated by TLC; design-level invariants on the generated space",
+    "and infinity-producing vectors, rho in {random,1,2,n-1,0} (rho = 0 with an all-zero n, where only the explicit check rejects), all 1032 single-bit flips of a proof, sign bytes > 3, "
+    "infinity with sign bit, scalars >= n and +N re-encodings of the right scalar, trailing/truncated bytes, non-power-of-two sizes, generator-count mismatch, every verifier scratch size "
+    "from 0 past the need, prover with NULL and useless scratch, transcript prefixes across SHA block boundaries; generator-list encodings of length 33k, 33k+-1 with malformed points "
+    "and heap accounting around the parser (counting malloc wrapper; sanitizer allocator statistics + LeakSanitizer pass in the asan build). In the order-13 test group (generators "
+    "are inputs there too) every witness of the (2,1)/(1,2) shapes and every proof string built from subgroup points is enumerated: the only place where accepted proofs exist that "
+    "no prover produced. All records are replayed on the real (static) functions; implementation traces from a seeded driver are decided by TLC.",
+    note="Trusted: TLC, BigInteger/MessageDigest overrides, the harness interpreter, the malloc-counting wrapper / sanitizer statistics. Generator points are inputs of this property "
+    "(measured from the implementation; their derivation from the seed is not re-derived here): decided for them are determinism, prefix consistency, canonical encoding and exact "
+    "round-trip. Soundness of the argument (no accepting proof without a witness) is not decided -- only that verification equals the specified equation on the generated and "
+    "recorded inputs. Real-group inputs are a structured finite pool plus seeded random values; exhaustive only in the order-13 group (scalar_low_impl.h) for three generators.",
+    technique="TLA+ spec executed by TLC; spec-generated records replayed into the C functions; implementation traces validated by TLC; exhaustive small-group comparison; "
+    "design-level invariants on the generated space",
     design_ref="DESIGN.md §4 C19")
 N = 0xFFFFFFFFFFFFFFFFFFFFFFFFFFFFFFFEBAAEDCE6AF48A03BBFD25E8CD0364141
 P = 2**256 - 2**32 - 977
@@ -138,7 +141,7 @@ def gens_driver(chk, gens257, counts, n_parse, v1="std"):
 def run(chk):
     quick = chk.tier == "quick"
     chk.groups = ["bppp"]
-    chk.build(["std", "asan"] + ([] if quick else ["verify", "i64", "noasm"]))
+    chk.build(["std", "asan", "tiny13"] + ([] if quick else ["verify", "i64", "noasm"]))
     # design-level size arithmetic for all lengths 1..64
     chk.model(MODULE, "C19_model.cfg", timeout=600)
     # the implementation's generator list is an input of the norm-argument specification
@@ -148,6 +151,10 @@ def run(chk):
     gens257 = g[0]["out"]["ser"]
     gpath = chk.out + "/gens.ndjson"
     vlib.write_ndjson(gpath, g)
+    # X: the order-13 test group -- every witness of the (2,1)/(1,2) shapes, every proof string of subgroup points for one statement
+    recs = chk.generate(MODULE, "C19_tiny13.cfg", "tiny13", timeout=2400 if quick else 7200)
+    chk.replay(recs, "tiny13", "exhaustive order-13 group")
+    chk.exhaustive = True
     # G: generated records
     recs = chk.generate(MODULE, "C19_gen.cfg", "gen", env={"C19_GENS": gpath}, timeout=2400 if quick else 7200)
     for v in (["std", "asan"] if quick else ["std", "asan", "verify", "i64", "noasm"]):
@@ -161,7 +168,8 @@ def run(chk):
     events += gens_driver(chk, gens257, counts[:9], 40, "asan")
     chk.validate(events, MODULE, "C19_trace.cfg", "driver", timeout=2400 if quick else 7200)
     return chk.finish(LEVEL,
-        "G: TLC enumerates Cases of C19_Bppp.tla (statements by size pair x vector pattern x rho, honest commit/prove/verify triples, 38 kinds of alteration, every "
+        "X: order-13 group, every witness (n,l) in Z_13^3 and every proof string of subgroup points/scalar encodings for one statement (invariant: accepted iff the paper's reduction "
+        "accepts; honest always accepted); G: TLC enumerates Cases of C19_Bppp.tla (statements by size pair x vector pattern x rho, honest commit/prove/verify triples, 38 kinds of alteration, every "
         "single-bit flip of one proof, every scratch size, transcript prefix lengths, generator-list encodings) with the invariants InvProve (completeness), InvVerify "
         "(equation = reduction; honest accepted; altered rejected) and InvGens (round trip); every record is executed on the real functions (std and asan builds). "
         "T: seeded random statements -> commit -> prove -> verify (honest and mutated) and generator-list create/parse events recorded from the implementation and decided by TLC. "
